@@ -22,7 +22,7 @@ def main():
         if not r.ok:
             raise MachineryError("TLC failed on Annot:\n" + tlc_failure_excerpt(r.stdout))
         asgs = [x for x in r.records if "prec" in x]
-        asgs.sort(key=lambda x: str(sorted(x["prec"].items())) + str(sorted(x["mem"].items())) + str(sorted(x["win"].items())))
+        asgs.sort(key=lambda x: str(sorted(x["prec"].items())) + str(sorted(x["mem"].items())) + str(sorted(x["win"].items())) + str(x.get("alias")))
         if quick:
             rng = random.Random(f"c15/{eff_seed()}")
             cons = [x for x in asgs if x["ok"]]
@@ -30,13 +30,22 @@ def main():
             by = collections.defaultdict(list)
             for x in asgs:
                 if not x["ok"]:
-                    by[tuple(sorted(x["broken"]))].append(x)
+                    by[(bool(x.get("alias")), tuple(sorted(x["broken"])))].append(x)
             pick = list(cons)
+            def ndiff(x):
+                return (sum(1 for v in x["prec"].values() if v != "f32") + sum(1 for v in x["mem"].values() if v != "DRAM")
+                        + sum(1 for v in x["win"].values() if v))
+            # every assignment that differs from the default in at most two buffers (both alias variants) ...
+            pick += [x for x in asgs if not x["ok"] and ndiff(x) <= 2]
+            seen_ids = {id(x) for x in pick}
+            # ... and per class of broken rules the smallest ones plus a seed-dependent sample
             for kk, lst in sorted(by.items()):
-                pick += lst[:25]
-                rest = lst[25:]
+                lst = [x for x in lst if id(x) not in seen_ids]
+                lst.sort(key=ndiff)  # assignments that differ from the default in the fewest buffers first
+                pick += lst[:8]
+                rest = lst[8:]
                 rng.shuffle(rest)
-                pick += rest[:15]
+                pick += rest[:8]
             asgs = pick
         out = annotjobs.run(asgs, d)
         # valid C of ordinary compiles: corpus + derived procedures through the strict gcc flags (cc_error events)
@@ -49,12 +58,14 @@ def main():
             raise MachineryError(f"assignment {k} not replayed")
         stat[(x["ok"], o["status"])] += 1
         if not x["ok"] and o["status"] == "accepted":
-            rep.violation({"what": "inconsistent annotations compiled", "broken": ",".join(sorted(x["broken"]))},
-                          {"assignment": {kk: x[kk] for kk in ("prec", "mem", "win")}, "broken_rules": x["broken"],
+            rep.violation({"what": "inconsistent annotations compiled", "broken": ",".join(sorted(x["broken"])),
+                           "alias": bool(x.get("alias"))},
+                          {"assignment": {kk: x[kk] for kk in ("prec", "mem", "win", "alias")}, "broken_rules": x["broken"],
                            "gcc_ok": o.get("cc_ok"), "gcc": o.get("cc_msg", "")[:800]})
         if o["status"] == "accepted" and not o["cc_ok"]:
-            rep.violation({"what": "generated C rejected by gcc", "consistent": x["ok"], "broken": ",".join(sorted(x["broken"]))},
-                          {"assignment": {kk: x[kk] for kk in ("prec", "mem", "win")}, "gcc": o["cc_msg"], "c": o.get("c")})
+            rep.violation({"what": "generated C rejected by gcc", "consistent": x["ok"], "broken": ",".join(sorted(x["broken"])),
+                           "alias": bool(x.get("alias"))},
+                          {"assignment": {kk: x[kk] for kk in ("prec", "mem", "win", "alias")}, "gcc": o["cc_msg"], "c": o.get("c")})
         if k % 400 == 0:
             rep.sample({"assignment": {kk: x[kk] for kk in ("prec", "mem", "win")}, "consistent": x["ok"],
                         "broken": x["broken"], "real": o["status"], "exc": o.get("exc")})
